@@ -571,6 +571,14 @@ def _token_sources(ctx, fn, name, off, depth=0, seen=None):
     and every struct-literal field of that name in the template's file and in utils.rs contributes"""
     seen = seen if seen is not None else set()
     base = name.split(".")[-1]
+    # a local destructured from a struct pattern under another name (`SingleFieldData { casted_trait: cast, .. }`) is
+    # the field of that name
+    if depth == 0 and fn.block is not None:
+        for x_, _ in A.walk(fn.block):
+            if A.kind(x_) == "Pat::Struct":
+                for fp_ in x_["fields"]:
+                    if A.kind(fp_["member"]) == "Member::Named" and A.pat_idents(fp_["pat"]) == [base] and fp_["member"]["0"]["sym"] != base:
+                        base = fp_["member"]["0"]["sym"]
     if base in seen or depth > 4:
         return []
     seen.add(base)
